@@ -95,6 +95,7 @@ func (eng *Engine) verifyFunc(key string) *FuncReport {
 	// ghost assignments of this function's own contract happen on entry
 	ex.applyGhostSets(st, c, ex.frameEnv(fr, fr.entry, fr.entry))
 	ex.goOwnsScan(key, st)
+	ex.writesThroughScan(key, st)
 	vals, out := ex.execBody(fr, st)
 	fr.results = vals
 	rep.ReachPC = out.pc
